@@ -614,6 +614,7 @@ class World:
         self.scripts: dict[int, list] = {}  # lid -> registry calls the listener makes while handling a datagram
         self.in_dispatch = False
         self.last_called = 0
+        self.lookup_results: list[int] = []
         self._wrap_registry()
         self._wrap_network()
         self.tx: list[int] = []
@@ -669,6 +670,8 @@ class World:
             if self.model_net:
                 oid = self.peer_ids.get(id(r)) if r is not None else None
                 self.events.append(f"s{self.last_called}:{oid if r is not None else 'none'}")
+                if oid is not None:
+                    self.lookup_results.append(oid)
             return r
         net.get_verified_by_address = get_verified_by_address
 
@@ -720,7 +723,7 @@ class World:
 
     def run_script(self, lid: int):
         for op in self.scripts.get(lid, ()):
-            self.ctx.count(f"recv:reentrant-op:{op[0]}")
+            self.ctx.count(f"recv:reentrant-op:{op[0] if op[0] != 'open' else ('open' if op[1] else 'close')}")
             if op[0] == "add":
                 self.ep.add_listener(op[1])
             elif op[0] == "addp":
@@ -903,6 +906,10 @@ class World:
         deliver through the endpoint's datagram_received instead of notify_listeners"""
         from ipv8.messaging.interfaces.udp.endpoint import UDPv4Address
         ctx = self.ctx
+        must = None
+        if label.endswith("+acc") or label.endswith("+rej"):
+            label, must = label[:-4], label[-3:]
+        del ACCEPTED[:]
         if src_obj is None:
             src_obj = UDPv4Address(*src)
         else:
@@ -914,6 +921,7 @@ class World:
         dec = self.dec_oracle(data)
         self.events = []
         self.tx = []
+        self.lookup_results = []
         self.current = data
         exn = "none"
         expected = self.expected_recipients(data) if self.ep.is_open() else []
@@ -966,6 +974,16 @@ class World:
                          f"a {len(data)}-byte cell (header needs {cell_header_end()} bytes) made the node "
                          f"{'send ' + str(len(self.tx)) + ' packet(s) of ' + str(self.tx[:3]) + ' bytes' if self.tx else 'enter a circuit handler'}"
                          f" in world {self.name}", self.replay(data))
+        # message level (lazy_community wrappers): a truncated / extended / badly signed message is never handed to its
+        # handler, a well-formed one is
+        if must is not None and exn == "none":
+            ctx.count(f"recv:message-level:{must}:{'accepted' if ACCEPTED else 'rejected'}")
+            if must == "rej" and ACCEPTED:
+                fail(ctx, "lazy_community:malformed-message-accepted",
+                     f"handler {ACCEPTED[0][1]} was called for a [{label}] datagram of {len(data)} bytes in world {self.name}: "
+                     f"a truncated, extended or badly signed message was accepted", self.replay(data))
+            if must == "acc" and not ACCEPTED and any(e[0] == "p" for e in self.events):
+                ctx.count("recv:message-level:well-formed-message-not-accepted")
         ctx.count(f"recv:gen:{label}")
         ctx.count(f"recv:len:{'0-21' if len(data) < 22 else '22' if len(data) == 22 else '23-29' if len(data) < 30 else '30-199' if len(data) < 200 else '200+'}")
         ctx.count(f"recv:handlers_entered:{min(sum(1 for e in self.events if e[0] in 'pq'), 3)}")
@@ -976,6 +994,9 @@ class World:
         if len(ctx.samples) < 6 and label in ("signed-valid", "cell-plain-payload", "reentrant", "sender-history", "udp6"):
             ctx.sample({"world": self.name, "generator": label, "source": list(src), "datagram": data.hex()[:160],
                         "implementation": " ".join(self.events)[:200]})
+        if self.model_net:
+            # which of several verified peers sharing the address the (set-ordered) scan found is not modelled: told to the model
+            self.emit(f"net hints [{','.join(map(str, self.lookup_results))}]")
         if dgram is not None:
             self.lines.append(f"dgram {1 if getattr(self.ep, '_running', True) else 0} {1 if dgram[0] else 0} {len(dgram[1])} "
                               f"{hx(self.addr_bytes(src))} {hx(data)} {dec}")
@@ -1076,6 +1097,32 @@ def handler_payloads(h):
     return None
 
 
+ACCEPTED: list = []      # (overlay object id, inner handler name): the lazy wrapper decoded, verified and called the handler
+
+
+def watch_acceptance(h) -> bool:
+    """make the lazy_community wrapper behind a decode_map entry report when it ACCEPTS a message, i.e. calls the wrapped
+    handler: the wrapper's closure cell `func` is replaced by a recording shim (once per wrapper; wrappers are shared by all
+    instances of a class)"""
+    f = getattr(h, "__func__", h)
+    code = getattr(f, "__code__", None)
+    if code is None or "lazy_community" not in code.co_filename or "func" not in code.co_freevars:
+        return False
+    cell = f.__closure__[code.co_freevars.index("func")]
+    inner = cell.cell_contents
+    if getattr(inner, "_c03_shim", False):
+        return True
+
+    def shim(self, *a, **kw):
+        ACCEPTED.append((id(self), getattr(inner, "__name__", "?")))
+        return inner(self, *a, **kw)
+    shim._c03_shim = True
+    shim.__name__ = getattr(inner, "__name__", "shim")
+    shim.__wrapped__ = inner
+    cell.cell_contents = shim
+    return True
+
+
 def handler_kind(h) -> str:
     f = getattr(h, "__func__", h)
     code = getattr(f, "__code__", None)
@@ -1128,19 +1175,25 @@ def gen_datagrams(ctx: Ctx, world: World, quick: bool, orig_handlers: dict, cls_
                 auth = len(keybin).to_bytes(2, "big") + keybin
                 unsigned = P + bytes([m]) + auth + body
                 good = unsigned + default_eccrypto.create_signature(key, unsigned)
-                yield "signed-valid", good
-                yield "signed-badsig", unsigned + rbytes(rng, 64)
-                yield "signed-garbage-key", P + bytes([m]) + b"\x00\x0a" + rbytes(rng, 10) + body + rbytes(rng, 64)
-                yield "signed-short-key", P + bytes([m]) + b"\x00\x4a" + rbytes(rng, 5)
+                watched = watch_acceptance(h)
+                acc = "+acc" if watched and pls else ""            # "+acc": the handler must be called
+                rej = "+rej" if watched else ""                    # "+rej": the handler must NOT be called
+                yield "signed-valid" + acc, good
+                yield "signed-badsig" + rej, unsigned + rbytes(rng, 64)
+                yield "signed-garbage-key" + rej, P + bytes([m]) + b"\x00\x0a" + rbytes(rng, 10) + body + rbytes(rng, 64)
+                yield "signed-short-key" + rej, P + bytes([m]) + b"\x00\x4a" + rbytes(rng, 5)
                 for k in (range(22, len(good)) if not quick else sorted(set(rng.sample(range(22, len(good)), 10)))):
-                    yield "valid-prefixes", good[:k]
-                yield "signed-inflated", P + bytes([m]) + b"\xff\xff" + keybin + body
+                    yield "valid-prefixes" + rej, good[:k]       # any cut of a signed message loses (part of) the signature
+                yield "signed-inflated" + rej, P + bytes([m]) + b"\xff\xff" + keybin + body
             else:
                 good = P + bytes([m]) + body
-                yield "unsigned-valid", good
+                watched = watch_acceptance(h) and bool(pls) and kind == "unsigned"
+                # without a top-level `raw` ("rest of the message") every cut and every extension must be rejected
+                strict = watched and all(d[0] != "raw" for p_ in pls for d in cls_descs.get(p_, [("raw",)]))
+                yield "unsigned-valid" + ("+acc" if watched else ""), good
                 for k in (range(22, len(good)) if not quick else sorted(set(rng.sample(range(22, len(good)), min(8, len(good) - 22))))):
-                    yield "valid-prefixes", good[:k]
-                yield "unsigned-tail", good + rbytes(rng, 3)
+                    yield "valid-prefixes" + ("+rej" if strict else ""), good[:k]
+                yield "unsigned-tail" + ("+rej" if strict else ""), good + rbytes(rng, 3)
         # cells
         if priv:
             ce = o.crypto_endpoint
@@ -1455,7 +1508,7 @@ async def run_receive(ctx: Ctx, use_model: bool, quick: bool):
             op = rng.choice(["new", "new", "addv", "rmp", "rmp", "rma", "seta", "addv"])
             if op == "new" and len(w.peers) < 400:
                 a = rng.choice(addrs)
-                if not holders(a):
+                if not holders(a) or rng.random() < 0.6:       # several verified peers may share an address (NAT, new key)
                     oid = w.new_peer(rng.randrange(4), a)
                     w.net_op("addv", oid)
             elif op in ("addv", "rmp", "seta") and w.peers:
@@ -1465,12 +1518,12 @@ async def run_receive(ctx: Ctx, use_model: bool, quick: bool):
                     w.net_op("rmp", oid)
                 elif op == "seta":
                     a = rng.choice(addrs)
-                    if not [q for q in holders(a) if q is not p] and not p.address_frozen:
+                    if (not [q for q in holders(a) if q is not p] or rng.random() < 0.4) and not p.address_frozen:
                         w.net_op("seta", oid, a)
                 else:
                     known = w.network.verified_by_public_key_bin.get(p.public_key.key_to_bin())
                     target = known if known is not None else p
-                    if not [q for q in holders(p.address) if q is not target]:
+                    if not [q for q in holders(p.address) if q is not target] or rng.random() < 0.4:
                         w.net_op("addv", oid)
             elif op == "rma":
                 w.net_op("rma", addr=rng.choice(addrs))
@@ -1486,7 +1539,8 @@ async def run_receive(ctx: Ctx, use_model: bool, quick: bool):
             else:
                 d = rbytes(rng, rng.choice([0, 22, 30]))
             w.notify(d, "sender-history", src=src)
-            ctx.count("recv:sender:" + ("known" if holders(src) else "unknown-or-former"))
+            ctx.count("recv:sender:" + ("shared-by-%d" % min(len(holders(src)), 3) if len(holders(src)) > 1 else
+                                        "known" if holders(src) else "unknown-or-former"))
     worlds.append(w)
 
     # 7. the real UDP transport callback
@@ -1506,11 +1560,10 @@ async def run_receive(ctx: Ctx, use_model: bool, quick: bool):
            and "unregistered address" not in str(c.get("exception"))]
     ctx.count("recv:loop-exception-handler-calls(mock send to unknown address, ignored)", len(loop_errors) - len(bad))
     ctx.count("recv:loop-exception-handler-calls", len(bad))
+    # not an oracle: what reaches the loop's exception handler from a coroutine handler's task is outside the property's
+    # wording (it is not the transport) and depends on garbage collection timing; kept as a measured count only
     for c in bad[:3]:
-        e = c.get("exception")
-        fail(ctx, f"event-loop:{type(e).__name__ if e else 'message'}",
-                        f"an exception from an asynchronous message handler reached the event loop: {c.get('message')!r} "
-                        f"{e!r}", {"kind": "loop", "message": str(c.get("message")), "exception": repr(e)})
+        ctx.count(f"recv:loop-exception-handler:{type(c.get('exception')).__name__}")
 
 
 async def run_udp(ctx: Ctx, rng, Probe, use_model: bool):
@@ -1591,7 +1644,7 @@ async def run_transports(ctx: Ctx, use_model: bool, quick: bool):
     from ipv8_rust_tunnels import generate_session_keys
     AutoMockEndpoint.SEND_INET_EXCEPTION_TO_LOOP = False
     rng = ctx.rng
-    for a in (SRC_ADDR, ("5.6.7.8", 9), ("10.0.0.9", 7), ("::1", 9), ("fe80::2", 1234)):
+    for a in (SRC_ADDR, ("5.6.7.8", 9), ("10.0.0.9", 7), ("192.168.1.5", 1234)):
         if a not in internet:
             MockEndpoint(a, a).open()
     lines, expect = [], []
@@ -1702,8 +1755,8 @@ async def run_transports(ctx: Ctx, use_model: bool, quick: bool):
                     [PP + bytes([m]) + rbytes(rng, k) for m in (1, 2, 3, 40, 60, 200, 246) for k in (0, 5)] + \
                     [rbytes(rng, k) for k in (1, 7, 30)]
             for d in cases:
-                for addr in (SRC_ADDR, ("10.0.0.9", 7), ("::1", 9), ("fe80::2", 1234)):
-                    ctx.count(f"broadcast:{epname}:source-{'v6' if ':' in addr[0] else 'v4'}")
+                for addr in (SRC_ADDR, ("10.0.0.9", 7), ("192.168.1.5", 1234)):   # the broadcast socket is AF_INET
+                    ctx.count(f"broadcast:{epname}:datagram_received")
                     ctx.case(("bcast", epname, cls.__name__, addr, d), True)
                     w.current = d
                     w.events = []
